@@ -1,5 +1,4 @@
 import AutoVerif.Lemmas.C06
-import AutoVerif.Gen.Consts
 /-
 C07 — In-flight work is withheld from observation until the right event releases it.
 
@@ -310,88 +309,6 @@ example :
     let p (w : String) (tag : String) : Payload := ⟨"u", ⟨3, tag, none⟩, w⟩
     preProcess utype s [p "v" "0", p "w" "1", p "x" "2", p "w" "3", p "v" "4"] = [p "v" "0", p "x" "2", p "v" "4"] := by
   decide
-
-/-! ### the model's decision points are the source's (regenerated `Gen.Src` expressions)
-
-Conditions translated from the Go source on every run (extract/exprs.d/C07.json):
-`ShouldProcess`, `FilterProposals`, the keep-tests of `PreProcess` / `FilterResults`, and the
-any-of loops of `ShouldAcceptAttestedReport` / `ShouldTransmitAcceptedReport` (the condition that
-sets the flag and the value that is returned).  The `switch` over the upkeep type and the
-transmit type in `ShouldProcess` is not an expression and stays compared by the harness. -/
-
-/-- `ShouldProcess`: `ok` → known; `v.isTransmissionPending` → false; a performed conditional is
-    answered by `trigger.BlockNumber >= v.transmitBlockNumber` -/
-theorem shouldProcess_matches_source (utype : String → UpkeepType) (s : St) (w uid : String) (cb : Nat) :
-    shouldProcess utype s w uid cb =
-      if Gen.Src.c07ProcessKnown (s.cache.get w s.now).isSome then
-        let v := (s.cache.get w s.now).get!
-        if Gen.Src.c07ProcessPending v.pending then false
-        else match utype uid with
-          | .log => if v.ttype = performEvent then false else true
-          | .condition => if v.ttype = performEvent then Gen.Src.c07ConditionalFromBlock cb v.tblock else true
-          | .other => true
-      else true := by
-  unfold shouldProcess
-  cases s.cache.get w s.now with
-  | none => simp [Gen.Src.c07ProcessKnown]
-  | some v =>
-    simp only [Gen.Src.c07ProcessKnown, Option.isSome_some, if_true, Option.get!_some, Gen.Src.c07ProcessPending,
-      Gen.Src.c07ConditionalFromBlock]
-    rfl
-
-private def typeOfByte : Nat → UpkeepType
-  | 0 => .condition
-  | 1 => .log
-  | _ => .other
-
-/-- `FilterProposals`: `ok`; `v.isTransmissionPending` → drop; `upkeepTypeGetter(id) == LogTrigger &&
-    v.transmitType == PerformEvent` → drop (`types.LogTrigger = 1`, `common.PerformEvent = 1`) -/
-theorem proposalAllowed_matches_source (tg : String → Nat) (s : St) (w uid : String) :
-    proposalAllowed (fun u => typeOfByte (tg u)) s w uid =
-      if Gen.Src.c07ProposalKnown (s.cache.get w s.now).isSome then
-        if Gen.Src.c07ProposalPending (s.cache.get w s.now).get!.pending then false
-        else if Gen.Src.c07ProposalPerformedLog (tg uid) 1 (s.cache.get w s.now).get!.ttype performEvent then false
-        else true
-      else true := by
-  unfold proposalAllowed
-  cases s.cache.get w s.now with
-  | none => simp [Gen.Src.c07ProposalKnown]
-  | some v =>
-    simp only [Gen.Src.c07ProposalKnown, Option.isSome_some, if_true, Option.get!_some, Gen.Src.c07ProposalPending,
-      Gen.Src.c07ProposalPerformedLog]
-    have hlog : typeOfByte (tg uid) = UpkeepType.log ↔ tg uid = 1 := by
-      generalize tg uid = n
-      match n with
-      | 0 => simp [typeOfByte]
-      | 1 => simp [typeOfByte]
-      | n + 2 => simp [typeOfByte]
-    simp only [hlog]
-    by_cases hp : v.pending = true <;> by_cases h1 : tg uid = 1 <;> by_cases h2 : v.ttype = performEvent <;>
-      simp [hp, h1, h2]
-
-/-- one iteration of the filter loops: an item is appended exactly on the `if` condition of
-    `PreProcess` / `FilterResults` (`c.ShouldProcess(…)`, not negated) -/
-theorem filterLoop_matches_source {ι : Type} (keep : ι → Bool) (res : List ι) (x : ι) (xs : List ι) :
-    filterLoop keep res (x :: xs) =
-      (if Gen.Src.c07PreProcessKeeps (keep x) then filterLoop keep (res ++ [x]) xs else filterLoop keep res xs) ∧
-    filterLoop keep res (x :: xs) =
-      (if Gen.Src.c07FilterResultsKeeps (keep x) then filterLoop keep (res ++ [x]) xs else filterLoop keep res xs) :=
-  ⟨rfl, rfl⟩
-
-/-- `ShouldAcceptAttestedReport`: the flag is set exactly when `shouldAccept` holds, every upkeep is
-    visited, and the flag is what is returned -/
-theorem acceptReport_matches_source (cfg : Cfg) (s : St) (w : String) (b : Nat) (rest : List (String × Nat)) (acc : Bool) :
-    acceptReport cfg s ((w, b) :: rest) acc =
-      acceptReport cfg (accept cfg s w b).1 rest (if Gen.Src.c07ReportAcceptSets (accept cfg s w b).2 then true else acc) ∧
-    acceptReport cfg s [] acc = (s, Gen.Src.c07ReportAcceptAnswer acc) :=
-  ⟨rfl, rfl⟩
-
-/-- `ShouldTransmitAcceptedReport`: the same shape -/
-theorem transmitReport_matches_source (s : St) (w : String) (b : Nat) (rest : List (String × Nat)) (acc : Bool) :
-    transmitReport s ((w, b) :: rest) acc =
-      transmitReport s rest (if Gen.Src.c07ReportTransmitSets (shouldTransmit s w b) then true else acc) ∧
-    transmitReport s [] acc = Gen.Src.c07ReportTransmitAnswer acc :=
-  ⟨rfl, rfl⟩
 
 /-! ### the two-phase cache GC -/
 
